@@ -16,6 +16,7 @@ set_option linter.unusedTactic false
 set_option linter.unreachableTactic false
 set_option linter.unusedVariables false
 set_option linter.unusedSectionVars false
+set_option linter.unusedSimpArgs false
 
 namespace C12
 open Model.C12
@@ -80,6 +81,23 @@ theorem read_xy_coherent (env : Env K) (s : State K) (h : Inv s) (c : XY) :
 theorem axis_spacing (a : Axis K) (j : Nat) :
     (a.o + ((j + 1 : Nat) : K) * a.sp) - (a.o + (j : K) * a.sp) = a.sp := by
   push_cast; ring
+
+/-- `recenter` does what it says: after `c -= c[shape // 2]` the sample at the centre index is exactly zero
+    (`x`: column `cols // 2`; `y`: row `rows // 2`), and the spacing is untouched -/
+theorem recenter_zero_at_centre (s : State K) (a : Axis K) :
+    (centerAxis s .x a).o + ((s.cols / 2 : Nat) : K) * (centerAxis s .x a).sp = 0 ∧
+    (centerAxis s .y a).o + ((s.rows / 2 : Nat) : K) * (centerAxis s .y a).sp = 0 ∧
+    (centerAxis s .x a).sp = a.sp ∧ (centerAxis s .y a).sp = a.sp := by
+  refine ⟨?_, ?_, rfl, rfl⟩ <;> simp only [centerAxis] <;>
+    (show a.o - (a.o + ((_ : Int) : K) * a.sp) + _ = 0) <;> simp only [Int.cast_natCast] <;> ring
+
+/-- a freshly generated grid (`make_xy_grid`) has its exact zero at the centre index and spacing `dx` -/
+theorem fresh_zero_at_centre (s : State K) :
+    (freshAxis s .x).o + ((s.cols / 2 : Nat) : K) * (freshAxis s .x).sp = 0 ∧
+    (freshAxis s .y).o + ((s.rows / 2 : Nat) : K) * (freshAxis s .y).sp = 0 ∧
+    (freshAxis s .x).sp = s.dx ∧ (freshAxis s .y).sp = s.dx := by
+  refine ⟨?_, ?_, rfl, rfl⟩ <;> simp only [freshAxis] <;>
+    (show ((_ : Int) : K) * s.dx + _ = 0) <;> simp only [Int.cast_neg, Int.cast_natCast] <;> ring
 
 /-- polar part: after reading `r` (or `t`) the polar array exists and is the polar transform of exactly the
     Cartesian arrays the object currently holds -/
